@@ -6,6 +6,8 @@ def stages(tier):
          "timeout": 300, "timeout_thorough": 1800},
         {"name": "e2e", "cmd": "e2e02", "args": [], "check": "Check.KeyE2E.check_served",
          "timeout": 300, "timeout_thorough": 1800},
+        {"name": "concurrent", "cmd": "keyconc", "args": [], "check": "keys computed by 16 goroutines at once (INFO and DEBUG log level, parking log sink) equal the keys computed alone (direct)",
+         "timeout": 300, "timeout_thorough": 900},
     ]
 
 TRUSTED = [
